@@ -10,7 +10,8 @@
       - [sem G p : list row] is compositional and deterministic (scan order = order of [g_nodes],
         nested loops left-outer / right-inner), so "bag, ordered below Sort" is a plain list here;
         comparisons with the engine are made modulo permutation except under ORDER BY,
-      - [PReturn]'s [distinct] flag is ignored, as [Planner::plan_return] ignores it,
+      - [PReturn] with [distinct] removes duplicate projected rows ([Planner::plan_return] puts a
+        [DistinctOperator] on the projection since 36a1196; before, the flag was ignored),
       - a join condition is *used* only when it is  Variable = Variable  with the left variable a
         column of the left input and the right one a column of the right input; every other
         condition is silently dropped ([plan_join]: [filter_map(.. expression_to_column ..ok()?)]),
@@ -453,6 +454,9 @@ Fixpoint insert_sorted (le : row -> row -> bool) (r : row) (l : list row) : list
 Definition sort_rows (le : row -> row -> bool) (l : list row) : list row :=
   fold_left (fun acc r => insert_sorted le r acc) l [].
 
+(** RETURN [DISTINCT] *)
+Definition return_rows (distinct : bool) (rs : list row) : list row := if distinct then dedup [] rs else rs.
+
 (** ** The semantics *)
 Fixpoint sem (G : graph) (p : plan) : list row :=
   match p with
@@ -462,7 +466,7 @@ Fixpoint sem (G : graph) (p : plan) : list row :=
   | PExpand f t ev d ty h inp => flat_map (expand_row G f t ev d ty h) (sem G inp)
   | PFilter e inp => filter (passes G e) (sem G inp)
   | PProject items inp => map (project_row G items) (sem G inp)
-  | PReturn items _ inp => map (project_row G items) (sem G inp)
+  | PReturn items d inp => return_rows d (map (project_row G items) (sem G inp))
   | PJoin k conds l r => join_rows k (schema l) (schema r) conds (sem G l) (sem G r)
   | PLeftJoin l r => left_join_rows (schema l) (schema r) (sem G l) (sem G r)
   | PAgg groups aggs inp => agg_rows G groups aggs (sem G inp)
@@ -496,7 +500,7 @@ Fixpoint semq (G : graph) (p : plan) : list row * list row :=
       | vis' => (vis', ph)
       end
   | PProject items inp => same (map (project_row G items) (fst (semq G inp)))
-  | PReturn items _ inp => same (map (project_row G items) (fst (semq G inp)))
+  | PReturn items d inp => same (return_rows d (map (project_row G items) (fst (semq G inp))))
   | PJoin k conds l r => same (join_rows k (schema l) (schema r) conds (fst (semq G l)) (fst (semq G r)))
   | PLeftJoin l r => same (left_join_rows (schema l) (schema r) (fst (semq G l)) (fst (semq G r)))
   | PAgg groups aggs inp => same (agg_rows G groups aggs (fst (semq G inp)))
@@ -529,7 +533,7 @@ Fixpoint semq_pre (G : graph) (p : plan) : list row * list row :=
       | _ => (filter (passes G e) ph, ph)
       end
   | PProject items inp => same (map (project_row G items) (fst (semq_pre G inp)))
-  | PReturn items _ inp => same (map (project_row G items) (fst (semq_pre G inp)))
+  | PReturn items d inp => same (return_rows d (map (project_row G items) (fst (semq_pre G inp))))
   | PJoin k conds l r => same (join_rows k (schema l) (schema r) conds (fst (semq_pre G l)) (fst (semq_pre G r)))
   | PLeftJoin l r => same (left_join_rows (schema l) (schema r) (fst (semq_pre G l)) (fst (semq_pre G r)))
   | PAgg groups aggs inp => same (agg_rows G groups aggs (fst (semq_pre G inp)))
